@@ -1122,6 +1122,7 @@ def mutate_doc(rng, doc):
 
 
 CORPUS_DOCS = [
+    '{"\\"a\\""} 1\n# EOF\n',   # F35: stray sample whose name is itself a quoted string (known finding)
     'a 1 -1.5\n# EOF\n',                                                 # F10 (repaired 7b52129)
     '# TYPE a gauge\na 1 -1.000000001\n# EOF\n',
     'a 1 -0.5\n# EOF\n',                                                 # F10b: accepted as +0.5, stable from then on
